@@ -94,6 +94,9 @@ func runC14(p *Prog, r *Report) {
 		q.Req(R, "close-sets-closed", len(sc) == 1 && len(sc[0].Guard) == 1 && sc[0].Guard[0] == "!recv.closed" && sc.AllHeld(coreDialerMu), sc.Pos(p), "closed=true under the lock", "Close does not set closed=true unconditionally under the lock")
 	}
 
+	r.Describe("C14.6/ErrClosed-means-closed", "a transport reports ErrClosed from Dial/Accept only for its own closed state: core's redial loop stops for good on ErrClosed, so a vanished listener or failed attempt must surface as any other error")
+	errClosedMeansClosed(p, r, "C14.6/ErrClosed-means-closed")
+
 	R = "C14.2/backoff"
 	r.Describe(R, "failed dial: delay = reconnTime before growth; growth only if reconnMaxTime != 0 and always clamped to it; only on the redial path; nothing scheduled for ErrClosed")
 	if dl.OK() {
